@@ -312,7 +312,7 @@ theorem fmtX_hash {κ : Type} (ks : KeySys κ) (io : FloatIO) (m : GMap κ) (ind
 /-- **object instances** (non-alt, letters h s p): the type name, then the init hash between `(` and `)` whatever delimiter the
     format gives -/
 theorem fmtX_obj {κ : Type} (ks : KeySys κ) (io : FloatIO) (m : GMap κ) (ind : Ind) (name : Str) (es : List XEntry)
-    (texts : List (Str × Str))
+    (texts : List (Str × Str)) (hn : name ≠ [])
     (hl : isHashLetter (getG ks m (.obj name es)).f.letter = true) (halt : (getG ks m (.obj name es)).f.alt = false)
     (hind : ind.indenting = false)
     (hc : EntriesTextX ks io m (cfOfG ks (getG ks m (.obj name es))) (hashChildInd (getG ks m (.obj name es)).f ind) es texts) :
@@ -324,7 +324,8 @@ theorem fmtX_obj {κ : Type} (ks : KeySys κ) (io : FloatIO) (m : GMap κ) (ind 
   have hna : (getG ks m (.obj name es)).f.letter ≠ 'a' := by
     intro h; rw [h] at hl; simp [isHashLetter] at hl
   have hb : ind.breaks = false := by simp [Ind.breaks, hind]
-  simp only [fmtX, hna, if_false, hl, Bool.not_true, Bool.false_eq_true, hp, hashOf, Res.bind, hb,
+  have hne : name.isEmpty = false := by cases name <;> simp at hn ⊢
+  simp only [fmtX, hne, Bool.false_eq_true, hna, if_false, hl, Bool.not_true, Bool.false_eq_true, hp, hashOf, Res.bind, hb,
     hashAssembleD_nonalt _ _ _ _ halt hind, if_true, List.nil_append]
 
 /-- **Type values**: the name, then the parameters formatted as an Array under the same map and `ctx.Subsequent()`; `#s`
@@ -378,9 +379,17 @@ theorem fmtX_hash_unsupported {κ : Type} (ks : KeySys κ) (io : FloatIO) (m : G
   simp [fmtX, hl, ha]
 
 theorem fmtX_obj_unsupported {κ : Type} (ks : KeySys κ) (io : FloatIO) (m : GMap κ) (ind : Ind) (name : Str) (es : List XEntry)
+    (hn : name ≠ [])
     (hl : isHashLetter (getG ks m (.obj name es)).f.letter = false) (ha : (getG ks m (.obj name es)).f.letter ≠ 'a') :
     fmtX ks io m ind (.obj name es) = .reported .unsupported := by
-  simp [fmtX, hl, ha, Res.bind]
+  have hne : name.isEmpty = false := by cases name <;> simp at hn ⊢
+  simp [fmtX, hne, hl, ha, Res.bind]
+
+/-- an instance of an anonymous object type is written as the Hash of its init hash (after the line break of the context) -/
+theorem fmtX_obj_anon {κ : Type} (ks : KeySys κ) (io : FloatIO) (m : GMap κ) (ind : Ind) (es : List XEntry) :
+    fmtX ks io m ind (.obj [] es) =
+      (fmtX ks io m ind (.hash es)).bind fun s => .text ((if ind.breaks then '\n' :: ind.padding else []) ++ s) := by
+  simp only [fmtX, List.isEmpty_nil, if_true, List.append_nil]
 
 /-- a container reports unsupported-format for its own letter exactly when the letter is outside its set — otherwise the
     result is the composition of the element results -/
